@@ -243,6 +243,8 @@ pub enum StoreKind {
     StandoffChanged,
     /// as Standoff, loaded with a configuration built with `with_use_include(false)`
     StandoffNoIncludeConfig,
+    /// as Standoff, then written as STAM CBOR, loaded from that file and given the JSON file name again (conversion route)
+    StandoffViaCbor,
 }
 
 fn base_doc_files(dir: &str) -> String {
@@ -284,6 +286,16 @@ pub fn build_store(kind: StoreKind, dir: &str) -> AnnotationStore {
             .unwrap();
             s
         }
+        StoreKind::StandoffViaCbor => {
+            let root = base_doc_files(dir);
+            let mut s = AnnotationStore::from_file(&root, Config::default().with_use_include(true)).expect("load stand-off store");
+            let cbor = format!("{}/root.store.stam.cbor", dir);
+            s.set_filename(&cbor);
+            s.save().expect("save as CBOR");
+            let mut s = AnnotationStore::from_file(&cbor, Config::default()).expect("load CBOR store");
+            s.set_filename(&root);
+            s
+        }
         StoreKind::Standoff | StoreKind::StandoffChanged | StoreKind::StandoffNoIncludeConfig => {
             let root = base_doc_files(dir);
             let mut s = AnnotationStore::from_file(&root, Config::default().with_use_include(kind != StoreKind::StandoffNoIncludeConfig)).expect("load stand-off store");
@@ -300,6 +312,10 @@ fn snapshot_files(dir: &str) -> std::collections::BTreeMap<String, String> {
     let mut m = std::collections::BTreeMap::new();
     if let Ok(rd) = std::fs::read_dir(dir) {
         for e in rd.flatten() {
+            // (the CBOR file a store was converted through embeds the path of its directory and is no output of a reader)
+            if e.file_name().to_string_lossy().ends_with(".cbor") {
+                continue;
+            }
             if let Ok(bytes) = std::fs::read(e.path()) {
                 m.insert(e.file_name().to_string_lossy().into_owned(), String::from_utf8_lossy(&bytes).into_owned());
             }
@@ -543,7 +559,7 @@ pub fn run(rep: &Reporter) -> Coverage {
     let bound = rep.tier.pick(2, 3);
     let cap: u64 = rep.tier.pick(20_000, 400_000);
     let mut jobs: Vec<(StoreKind, Vec<Body>)> = Vec::new();
-    for kind in [StoreKind::Inline, StoreKind::Standoff, StoreKind::StandoffChanged, StoreKind::StandoffNoIncludeConfig] {
+    for kind in [StoreKind::Inline, StoreKind::Standoff, StoreKind::StandoffChanged, StoreKind::StandoffNoIncludeConfig, StoreKind::StandoffViaCbor] {
         for bodies in combos(rep.tier) {
             jobs.push((kind, bodies));
         }
@@ -592,7 +608,7 @@ pub fn run(rep: &Reporter) -> Coverage {
     cov.evaluations = total;
     cov.traces_validated = total;
     cov.distinct_nontrivial = per.iter().filter(|p| p["schedules"].as_u64().unwrap_or(0) > 1).count() as u64;
-    cov.rule = format!("for every store kind (inline; stand-off members loaded from files; stand-off with a changed dataset; stand-off loaded with a use_include(false) configuration) and every multiset of {} reader bodies (store / dataset / second dataset / resource serialisation to a string, query + parallel iteration; in pairs also a store serialisation with a configuration derived from that of the store): all schedules of the real code with at most {} preemptions (CHESS-style: switching away from a still-runnable thread costs 1), threads gated at the H2 yield points before every lock operation on the shared serialisation mode and changed flags; oracle: each thread's return value equals its value when run alone on a fresh copy of the store, and a store serialisation afterwards equals the sequential one; states = distinct outcome vectors, transitions = schedules executed; non-trivial = thread sets with more than one schedule", rep.tier.pick("2", "2 and 3"), bound);
+    cov.rule = format!("for every store kind (inline; stand-off members loaded from files; stand-off with a changed dataset; stand-off loaded with a use_include(false) configuration; stand-off written as CBOR and loaded back) and every multiset of {} reader bodies (store / dataset / second dataset / resource serialisation to a string, query + parallel iteration; in pairs also a store serialisation with a configuration derived from that of the store): all schedules of the real code with at most {} preemptions (CHESS-style: switching away from a still-runnable thread costs 1), threads gated at the H2 yield points before every lock operation on the shared serialisation mode and changed flags; oracle: each thread's return value equals its value when run alone on a fresh copy of the store, and a store serialisation afterwards equals the sequential one; states = distinct outcome vectors, transitions = schedules executed; non-trivial = thread sets with more than one schedule", rep.tier.pick("2", "2 and 3"), bound);
     cov.samples = samples;
     cov.exhaustive = !capped_any;
     cov.extra.insert("preemption_bound".into(), json!(bound));
@@ -613,6 +629,7 @@ pub fn replay(rep: &Reporter, case: &Value) {
         "Inline" => StoreKind::Inline,
         "Standoff" => StoreKind::Standoff,
         "StandoffNoIncludeConfig" => StoreKind::StandoffNoIncludeConfig,
+        "StandoffViaCbor" => StoreKind::StandoffViaCbor,
         _ => StoreKind::StandoffChanged,
     };
     let all = [Body::StoreJson, Body::DatasetJson, Body::ResourceJson, Body::QueryParallel, Body::Dataset2Json, Body::StoreJsonDerivedConfig];
